@@ -44,6 +44,9 @@ func execAll() {
 			continue
 		}
 		toks := strings.Fields(l)
+		if len(toks) > 2 && toks[0] == "kf" && toks[2] == "prog" {
+			toks = toks[2:] // pinned known-finding witness: executed like any program
+		}
 		if len(toks) == 0 || toks[0] != "prog" {
 			impl[i] = "err:badop"
 			continue
@@ -122,9 +125,12 @@ func execAll() {
 			}
 		case g.Status == n.Status && string(g.Output) == string(n.Output):
 			orc[it.line] = "ok"
+		case strings.HasPrefix(g.Status, "err:"):
+			// the Go compiler accepted the program and ran it; the GnoVM refused it
+			orc[it.line] = "VIOL:gno-rejects go=" + n.Line() + " gno-detail=" + gnoDetail[k]
 		default:
 			orc[it.line] = "VIOL:go-mismatch go=" + n.Line()
-			if strings.HasPrefix(g.Status, "err:") || strings.HasPrefix(g.Status, "limit:") {
+			if strings.HasPrefix(g.Status, "limit:") {
 				orc[it.line] += " gno-detail=" + gnoDetail[k]
 			}
 		}
@@ -147,6 +153,13 @@ func main() {
 		execAll()
 		return
 	}
+	if len(os.Args) > 1 && os.Args[1] == "kf" {
+		// print the op lines of the pinned known-finding witnesses (corpus/C04/kf-*.ops)
+		for _, k := range minigo.KnownFindings() {
+			fmt.Printf("%s\tkf %s prog %s\n", k.Key, k.Key, k.Prog.SExp())
+		}
+		return
+	}
 	if len(os.Args) > 1 && os.Args[1] == "render" {
 		// debugging aid: print the Go text of every program on stdin
 		in := bufio.NewScanner(os.Stdin)
@@ -154,6 +167,9 @@ func main() {
 		k := 0
 		for in.Scan() {
 			toks := strings.Fields(in.Text())
+			if len(toks) > 2 && toks[0] == "kf" {
+				toks = toks[2:]
+			}
 			if len(toks) == 0 || toks[0] != "prog" {
 				continue
 			}
